@@ -36,6 +36,18 @@ CHECKS += [
            "exactly-zero diagonal in back substitution; open findings: no row exchange, absolute pivot tolerance"),
 ]
 
+CHECKS += [
+ dict(id='C09',
+      text="Proof over the reals for every pair of particles: relational contract on the real loop() text of the 17 listed "
+           "momentum equations (pair (a,b) vs (b,a) on two-cell arrays with distinct indices): m_a da_a + m_b da_b = 0, "
+           "XIJ x (m_a da_a) = 0 for the central-force terms, frame (no store to a source array or a foreign cell); the 3 "
+           "summation-density loops add a non-negative term and W(0,h) > 0 for every kernel.",
+      note="float = R; kernel contracts of C08 and symbol formulas of C02 are assumed here (proved there); equation "
+           "parameters arbitrary but shared; array-level constants wdeltap,n equal on both arrays; the summation over all "
+           "pairs (antisymmetric terms over a symmetric neighbour relation vanish) is a mathematical glue lemma, not "
+           "machine-checked; neighbour symmetry is C01"),
+]
+
 NOT_APPLICABLE = [
  dict(property_id='C11', reason="round trip runs through numpy.savez/numpy.load/h5py and the compiled ParticleArray constructor; the repository code in between is dict/bytes glue no contract within reach can express (DESIGN.md section 4)"),
  dict(property_id='C12', reason="finite enumeration of scheme options decided by executing scheme code, generating and running; no function-level contract states it (DESIGN.md section 4)"),
@@ -43,7 +55,7 @@ NOT_APPLICABLE = [
 ]
 # properties not yet under a registered check are listed as not applicable
 # "pending" until their check lands, so the manifest is valid at all times
-PENDING = ['C01','C02','C03','C04','C05','C06','C07','C09','C10','C14','C16','C17','C19','C20']
+PENDING = ['C01','C02','C03','C04','C05','C06','C07','C10','C14','C16','C17','C19','C20']
 for p in PENDING:
     if p not in [c['id'] for c in CHECKS]:
         NOT_APPLICABLE.append(dict(property_id=p, reason="check not registered yet in this commit (work in progress, see DESIGN.md section 3 for the planned contracts)"))
